@@ -68,6 +68,12 @@ pub axiom fn ax_obeys()
         forall|a: f64, b: f64| (#[trigger] fcmp(a, b) == Some(core::cmp::Ordering::Equal)) == (fcmp(b, a) == Some(core::cmp::Ordering::Equal)),
         forall|a: f64, b: f64| (#[trigger] fcmp(a, b) is None) == (fcmp(b, a) is None),
         forall|a: f64, b: f64| #[trigger] feq(a, b) == (fcmp(a, b) == Some(core::cmp::Ordering::Equal)),
+        // max / min are commutative as far as comparisons can tell (the two results are identical, or +0 / -0,
+        // or both NaN): discharged for ALL triples by the loop-free Kani harness `ieee_max_min_commute`
+        forall|a: f64, b: f64, c: f64| #[trigger] fcmp(fmaxf(a, b), c) == fcmp(fmaxf(b, a), c),
+        forall|a: f64, b: f64, c: f64| #[trigger] fcmp(c, fmaxf(a, b)) == fcmp(c, fmaxf(b, a)),
+        forall|a: f64, b: f64, c: f64| #[trigger] fcmp(fminf(a, b), c) == fcmp(fminf(b, a), c),
+        forall|a: f64, b: f64, c: f64| #[trigger] fcmp(c, fminf(a, b)) == fcmp(c, fminf(b, a)),
         <f64 as AddSpec<f64>>::obeys_add_spec(),
         <f64 as AddSpec<&f64>>::obeys_add_spec(),
         <&f64 as AddSpec<f64>>::obeys_add_spec(),
